@@ -861,6 +861,201 @@ fn ordering_subtest(rng: &mut Rng, rep: &mut Report, slot: &mut usize) {
     }
 }
 
+
+// ------------------------------------------------------------------------------------------
+// Concurrent phase: independence of neighbouring fields under real threads.
+// ------------------------------------------------------------------------------------------
+
+struct ConcOut {
+    ops: u64,
+    spurious_cas: u64,
+    closure_retries: u64,
+    violations: Vec<(String, String)>,
+    keys: Vec<u64>,
+    finals: Vec<(usize, u64)>,
+}
+
+/// `threads` real threads work on one window.  Field `i` is *owned* by thread `i % threads`:
+/// only its owner ever operates on it, and only with the atomic accessors.  Neighbouring fields
+/// (which share a metadata byte for sub-byte widths and a word otherwise) therefore change
+/// concurrently, but every field has a single sequential history, so each return value is
+/// determined by the owner's private model.  An atomic accessor that reads-modifies-writes the
+/// containing byte non-atomically, or that touches bits outside its field, makes a neighbour's
+/// owner observe a value it never wrote.  A sub-byte compare-exchange may fail although the field
+/// matched (the containing byte changed); that is counted, not judged, but the value it reports
+/// must still be the field's.
+fn concurrent_owner_phase<T: W>(win: &mut Win, threads: usize, nops: usize, seed: u64, rep: &mut Report) {
+    let spec = win.spec;
+    let mask = win.mask();
+    let (bits, region, n, f0) = (win.bits, win.region, win.n, win.f0);
+    let init: Vec<u64> = (0..n).map(|i| win.get(i)).collect();
+    let init = &init;
+    let outs: Vec<ConcOut> = std::thread::scope(|s| {
+        let hs: Vec<_> = (0..threads)
+            .map(|t| {
+                s.spawn(move || {
+                    let mut rng = Rng::new(mix(seed, t as u64 + 1));
+                    let mine: Vec<usize> = (0..n).filter(|i| i % threads == t).collect();
+                    let mut model: Vec<u64> = mine.iter().map(|&i| init[i]).collect();
+                    let mut out = ConcOut { ops: 0, spurious_cas: 0, closure_retries: 0, violations: vec![], keys: vec![], finals: vec![] };
+                    // a few hot fields packed into the same bytes as the other threads' hot fields
+                    let hot = std::cmp::min(mine.len(), 4);
+                    for _ in 0..nops {
+                        let k = if rng.chance(3, 4) { rng.usize_below(hot) } else { rng.usize_below(mine.len()) };
+                        let i = mine[k];
+                        let a = addr(f0 + (i << region));
+                        let cur = model[k];
+                        let val = match rng.below(6) {
+                            0 => 0,
+                            1 => mask,
+                            2 => (cur ^ 1) & mask,
+                            3 => cur.wrapping_add(1) & mask,
+                            _ => rng.next() & mask,
+                        };
+                        let op = rng.usize_below(10);
+                        out.ops += 1;
+                        let mut bad = |name: &str, what: String| {
+                            if out.violations.len() < 8 {
+                                out.violations.push((
+                                    format!("concurrent:{}:bits={}:region={}", name, bits, region),
+                                    format!("thread {} of {} (owner of fields i%{}=={}) field {} (bit-in-byte {}) data_addr={:#x} owner's value before={:#x} arg={:#x}: {}",
+                                        t, threads, threads, t, i, (i * (1usize << bits)) % 8, a.as_usize(), cur, val, what),
+                                ));
+                            }
+                        };
+                        let newv;
+                        match op {
+                            0 => {
+                                let r = spec.load_atomic::<T>(a, Ordering::SeqCst).to64();
+                                if r != cur { bad("load_atomic:return", format!("returned {:#x}", r)); }
+                                newv = cur;
+                            }
+                            1 => { spec.store_atomic::<T>(a, T::from64(val), Ordering::SeqCst); newv = val; }
+                            2 => { spec.set_zero_atomic(a, Ordering::SeqCst); newv = 0; }
+                            3 => {
+                                let r = spec.compare_exchange_atomic::<T>(a, T::from64(cur), T::from64(val), Ordering::SeqCst, Ordering::SeqCst);
+                                match r {
+                                    Ok(v) => { if v.to64() != cur { bad("cas_success:return", format!("Ok({:#x})", v.to64())); } newv = val; }
+                                    Err(v) => {
+                                        // only legal as a byte-level failure of a sub-byte field
+                                        if bits >= 3 { bad("cas_success:failed", format!("Err({:#x}) although the field held the expected value and nobody else writes it", v.to64())); }
+                                        else if v.to64() != cur { bad("cas_success:return", format!("Err({:#x})", v.to64())); }
+                                        out.spurious_cas += 1;
+                                        newv = cur;
+                                    }
+                                }
+                            }
+                            4 => {
+                                let old = if mask == 1 { cur ^ 1 } else { let o = rng.next() & mask; if o == cur { cur.wrapping_add(1) & mask } else { o } };
+                                let r = spec.compare_exchange_atomic::<T>(a, T::from64(old), T::from64(val), Ordering::SeqCst, Ordering::SeqCst);
+                                match r {
+                                    Ok(v) => bad("cas_failure:succeeded", format!("Ok({:#x}) with expected-old {:#x}", v.to64(), old)),
+                                    Err(v) => { if v.to64() != cur { bad("cas_failure:return", format!("Err({:#x})", v.to64())); } }
+                                }
+                                newv = cur;
+                            }
+                            5 => {
+                                let r = spec.fetch_add_atomic::<T>(a, T::from64(val), Ordering::SeqCst).to64();
+                                if r != cur { bad("fetch_add:return", format!("returned {:#x}", r)); }
+                                newv = cur.wrapping_add(val) & mask;
+                            }
+                            6 => {
+                                let r = spec.fetch_sub_atomic::<T>(a, T::from64(val), Ordering::SeqCst).to64();
+                                if r != cur { bad("fetch_sub:return", format!("returned {:#x}", r)); }
+                                newv = cur.wrapping_sub(val) & mask;
+                            }
+                            7 => {
+                                let r = spec.fetch_and_atomic::<T>(a, T::from64(val), Ordering::SeqCst).to64();
+                                if r != cur { bad("fetch_and:return", format!("returned {:#x}", r)); }
+                                newv = cur & val;
+                            }
+                            8 => {
+                                let r = spec.fetch_or_atomic::<T>(a, T::from64(val), Ordering::SeqCst).to64();
+                                if r != cur { bad("fetch_or:return", format!("returned {:#x}", r)); }
+                                newv = cur | val;
+                            }
+                            _ => {
+                                let calls = Cell::new(0u32);
+                                let wrong = Cell::new(None);
+                                let (calls_r, wrong_r) = (&calls, &wrong);
+                                let r = spec.fetch_update_atomic::<T, _>(a, Ordering::SeqCst, Ordering::SeqCst, move |x: T| {
+                                    calls_r.set(calls_r.get() + 1);
+                                    if x.to64() != cur { wrong_r.set(Some(x.to64())); }
+                                    Some(T::from64(val))
+                                });
+                                if let Some(w) = wrong.get() { bad("fetch_update:closure-arg", format!("closure saw {:#x}", w)); }
+                                if calls.get() > 1 { out.closure_retries += (calls.get() - 1) as u64; }
+                                match r {
+                                    Ok(v) => { if v.to64() != cur { bad("fetch_update:return", format!("Ok({:#x})", v.to64())); } }
+                                    Err(v) => bad("fetch_update:rejected", format!("Err({:#x}) although the closure accepted", v.to64())),
+                                }
+                                newv = val;
+                            }
+                        }
+                        model[k] = newv;
+                        if out.keys.len() < 4096 {
+                            out.keys.push(mix(mix(0xC0C0, bits as u64 * 64 + region as u64), mix(op as u64, ((i * (1usize << bits)) % 8) as u64 | (threads as u64) << 8)));
+                        }
+                    }
+                    out.finals = mine.iter().cloned().zip(model.iter().cloned()).collect();
+                    out
+                })
+            })
+            .collect();
+        hs.into_iter().map(|h| h.join().expect("concurrent phase thread panicked")).collect()
+    });
+    for o in outs {
+        rep.evaluations += o.ops;
+        for k in o.keys { rep.key(k); }
+        rep.count("concurrent_ops", o.ops);
+        rep.count("concurrent_subbyte_cas_byte_level_failures", o.spurious_cas);
+        rep.count("concurrent_fetch_update_closure_retries", o.closure_retries);
+        for (s, d) in o.violations { rep.violation(s, d); }
+        for (i, v) in o.finals { win.put(i, v); }
+    }
+    rep.count("concurrent_windows", 1);
+    // quiescent: the whole raw window (all fields of all owners + margins) equals the merged model
+    if win.mem() != &win.img[..] {
+        let mem = win.mem();
+        let b = mem.iter().zip(win.img.iter()).position(|(x, y)| x != y).unwrap();
+        let where_ = if b < MARGIN || b >= win.len - MARGIN { "margin-changed" } else { "final-field-value" };
+        rep.violation(
+            format!("concurrent:{}:bits={}:region={}", where_, bits, region),
+            format!("after {} threads x {} atomic ops on disjoint owned fields, window byte {} (field byte offset {}) is {:#04x}, the owners' models give {:#04x}",
+                threads, nops, b, b as isize - MARGIN as isize, mem[b], win.img[b]),
+        );
+        let m: Vec<u8> = mem.to_vec();
+        win.img.copy_from_slice(&m);
+    }
+}
+
+fn concurrent_subtest(args: &Args, rng: &mut Rng, rep: &mut Report, slot: &mut usize) {
+    let nops = args.usize_or("conc-ops", if args.thorough() { 2_000_000 } else { 150_000 });
+    for bits in 0..=6usize {
+        for &region in &[3usize, 12] {
+            let Some(mut win) = Win::new(bits, region, *slot, rng, rep) else {
+                *slot += 1;
+                continue;
+            };
+            *slot += 1;
+            for &threads in &[2usize, 3, 4] {
+                let seed = rng.next();
+                let r = catch_unwind(AssertUnwindSafe(|| match bits {
+                    0..=3 => concurrent_owner_phase::<u8>(&mut win, threads, nops, seed, rep),
+                    4 => concurrent_owner_phase::<u16>(&mut win, threads, nops, seed, rep),
+                    5 => concurrent_owner_phase::<u32>(&mut win, threads, nops, seed, rep),
+                    _ => concurrent_owner_phase::<u64>(&mut win, threads, nops, seed, rep),
+                }));
+                if r.is_err() {
+                    rep.violation(format!("concurrent:panic:bits={}:region={}", bits, region), "a thread of the concurrent phase panicked inside a side-metadata accessor".to_string());
+                    let m: Vec<u8> = win.mem().to_vec();
+                    win.img.copy_from_slice(&m);
+                }
+            }
+        }
+    }
+}
+
 pub fn run(args: &Args, rep: &mut Report) {
     let mut rng = Rng::new(args.seed() ^ 0xC20);
     if !init(rep) {
@@ -906,6 +1101,9 @@ pub fn run(args: &Args, rep: &mut Report) {
     rep.count("configs", configs);
     rep.count("ops_per_config", nops as u64);
     ordering_subtest(&mut rng, rep, &mut slot);
+    if !args.miri() {
+        concurrent_subtest(args, &mut rng, rep, &mut slot);
+    }
     rep.note("compare_exchange_atomic with an `old` value that does not fit the field width is left out (no debug_assert covers `old`; legality unclear)");
     rep.note("set_raw_byte_atomic/load_raw_byte/load_raw_word are not part of the property and are not exercised");
     rep.note("initialize_side_metadata::<SideVM>() cannot reserve its range (side forwarding pointer spec needs 2^47 bytes); HeaderVM is used");
